@@ -610,8 +610,11 @@ def select__distinct_values(self: XPathFunction, context: ta.ContextType = None)
     else:
         collation = self.get_argument(self.context or context, 1, required=True, cls=str)
 
+    # The results are computed before yielding them: a suspended generator
+    # must not hold the collation lock and the changed locale.
     with CollationManager(collation, self):
-        yield from distinct_values()
+        distinct_results = list(distinct_values())
+    yield from distinct_results
 
 
 @method(function('insert-before', nargs=3,
@@ -650,13 +653,17 @@ def select__index_of(self: XPathFunction, context: ta.ContextType = None) -> Ite
     else:
         collation = self.get_argument(context, 2, required=True, cls=str)
 
+    # The results are computed before yielding them: a suspended generator
+    # must not hold the collation lock and the changed locale.
+    positions = []
     with CollationManager(collation, self) as manager:
         for pos, result in enumerate(self[0].atomization(context), start=1):
             try:
                 if manager.eq(result, value):
-                    yield pos
+                    positions.append(pos)
             except (TypeError, ValueError, ArithmeticError):
                 pass  # values that cannot be compared are not equal
+    yield from positions
 
 
 @method(function('remove', nargs=2, sequence_types=('item()*', 'xs:integer', 'item()*')))
